@@ -41,9 +41,12 @@ MsgLens == IF Thorough THEN {0, 1, 15, 16, 17, 31, 32, 33, 63, 64, 65, 100, 255,
 HmacGrid == { [klen |-> k, mlen |-> m] : k \in KeyLens, m \in MsgLens }
 
 HkdfEdges == { [posn |-> p, len |-> n] : p \in {0, 1, 5, 16, 31, 32}, n \in {0, 1, 5, 26, 27, 31, 32, 33, 64, 65, 100} }
-HkdfGrid == { [klen |-> k, slen |-> s, ilen |-> i, len |-> n] :
-                k \in {0, 1, 32, 80, 200}, s \in {0, 13, 32, 64, 65, 200}, i \in {0, 1, 10, 80, 200},
-                n \in IF Thorough THEN {0, 1, 31, 32, 33, 42, 64, 82, 100, 255} ELSE {1, 32, 33, 82} }
+HkdfGrid == IF Thorough
+            THEN { [klen |-> k, slen |-> s, ilen |-> i, len |-> n] :
+                     k \in {0, 1, 32, 80, 200}, s \in {0, 13, 31, 32, 33, 48, 63, 64, 65, 200}, i \in {0, 1, 10, 80, 200},
+                     n \in {0, 1, 31, 32, 33, 42, 64, 82, 100, 255} }
+            ELSE { [klen |-> k, slen |-> s, ilen |-> i, len |-> n] :
+                     k \in {0, 32, 200}, s \in {0, 13, 32, 33, 48, 64, 65, 200}, i \in {0, 10, 200}, n \in {1, 33, 82} }
 
 PbGrid == { [plen |-> p, slen |-> s, count |-> c, len |-> n] :
               p \in IF Thorough THEN {0, 1, 32, 63, 64, 65, 100, 200} ELSE {0, 8, 63, 64, 65, 100, 200},
